@@ -292,6 +292,30 @@ def execute(case):
                                                    tol=tol, relative=moved / abs(v0) if v0 else None))
                         break
                 stats['probes']['accepted_and_checked'] = 1
+    # (iii) the exclusion list is the user's: a variable that is not on it and is still clearly moving at the end of the
+    # search horizon means the search had to refuse. Decided by an independent run of the same block over the horizon
+    # (exogenous inputs frozen at k=0), only for blocks that do not refer to the time axis.
+    uses_time = any(n in ('k', 't') for _v, r_ in block['eqs'] for n in eqn.names_in(r_)) or eqn.has_user_t(block)
+    if not viol and verdict == 'accepted' and not uses_time and len([x for x in st['excluded'] if x != 't']) > 0:
+        exo_set = set(v for v, _ in block['exo'])
+        ref = {'eqs': [list(e) for e in block['eqs']], 'lags': [list(l) for l in block['lags']],
+               'ics': [list(i) for i in block['ics']], 'exo': [], 'maxtime': int(st['T']), 'err_tol': None}
+        for v, _ in block['exo']:
+            ref['exo'].append([v, repr(float(pre_series[v][0]))])
+        rr = eqn.run_block(ref, {'reduction': False, 'tol_param': 1e-13, 'cap': 5000}, (), 'mono')
+        if rr['outcome'] == 'ok':
+            tol = float(st['tol'])
+            literal = set(st['excluded']) | {'k', 't'}
+            for v in sorted(rr['series']):
+                if v in literal or v in exo_set or len(rr['series'][v]) < 2:
+                    continue
+                last, prev = rr['series'][v][-1], rr['series'][v][-2]
+                moved = abs(last - prev)
+                if moved > 4 * tol + 1e-9 and moved > 4 * tol * abs(last):
+                    viol.append(core.violation(ID, 'moving-variable-accepted', 'moving-variable-accepted', var=v,
+                                               last_two=[prev, last], tol=tol, excluded=list(st['excluded'])))
+                    break
+            stats['probes']['acceptance_checked_against_reference_run'] = 1
     if verdict != 'accepted':
         stats['probes']['rejected'] = 1
     sig = core.digest([case['profile'], st['T'], st['tol'], st['excluded'], verdict,
